@@ -57,7 +57,7 @@ int main(int argc, char** argv) {
   Ctx ctx(argc, argv);
   const bool T = ctx.thorough();
   std::vector<geodtab::Ell> ells = geodtab::ellipsoids();
-  const std::vector<double> lats = geodlat::direct_lats(T), azis = geodlat::direct_azis(T), lons = geodlat::direct_lons();
+  const std::vector<double> lats = geodlat::direct_lats(T), azis = geodlat::direct_azis(T), lons = geodlat::direct_lons(T);
   const std::vector<geodlat::LSpec> lspec = geodlat::direct_lengths(T);
   const int nforms = T ? 7 : 4;
 
@@ -65,7 +65,7 @@ int main(int argc, char** argv) {
   ctx.bound("direct.ellipsoids", geodlat::ellipsoid_text(T));
   ctx.bound("direct.lat1", geodlat::direct_lat_text(T));
   ctx.bound("direct.azi1", geodlat::direct_azi_text(T));
-  ctx.bound("direct.lon1", "{0,179.5,-180,540}");
+  ctx.bound("direct.lon1", T ? "{0,179.5,-180,540,-0,1e-13,-359.5,90-ulp}" : "{0,179.5,-180,540}");
   ctx.bound("direct.length", geodlat::direct_len_text(T));
   ctx.bound("direct.config", std::string("{Geodesic series (|f|<=0.2 only), GeodesicExact, Geodesic(exact=true)} x {GenDirect, Line+GenPosition, (Arc)DirectLine+GenPosition at s13/a13 same kind, same line other kind") + std::string(T ? ", public Direct/ArcDirect overloads, Line+GenSetDistance+GenPosition at GenDistance, Line+public Position/ArcPosition" : "") + "} x LONG_UNROLL {0,1} (the public overloads have no unrolled variant)");
   ctx.note("tolerance = 2 x documented error (Geodesic.hpp table by |f| scaled by a/6378137; GeodesicExact.hpp table by b/a scaled by Q/1e7 m, floor 40 nm), times the number of half circuits max(1, |s12|/2Q, |a12|/180) (the documented figures are for shortest geodesics)");
